@@ -635,7 +635,17 @@ func lexNegative(l *lexer) stateFn {
 		lastType == itemLeftDelim ||
 		lastType == itemCase ||
 		lastType == itemComma ||
-		lastType == itemLeftParen {
+		lastType == itemLeftParen ||
+		// every other token after which an expression begins:
+		lastType == itemColon ||
+		lastType == itemLeftBracket ||
+		lastType == itemQuestionKey ||
+		lastType == itemEquals ||
+		lastType == itemIf ||
+		lastType == itemElseif ||
+		lastType == itemPrint ||
+		lastType == itemSwitch ||
+		lastType == itemPlural {
 		// is it a negative number?
 		if l.peek() >= '0' && l.peek() <= '9' {
 			l.backup()
